@@ -160,163 +160,10 @@ func c11(c *core.Ctx) {
 	})
 
 	c.Clause("C11.2", "vote state has a closed set of writers: call sites of AccountAccessor.SetVotes / SetVoteFor lie in a frozen table (register, unregister, deposit top-up, vote move ×2, balance adjustment, genesis, journal wrapper/replay); the pointer GetVotes hands out is never used as the receiver of a big.Int mutator; in CallVoteTx the old candidate is debited (modifyCandidateVotes) before VoteFor is overwritten")
-	c.Run("writers", func() {
-		closedSites(c, "SetVotes", acc("SetVotes"), map[string]siteClass{
-			"(*" + tr + ".CandidateVoteEnv).registerCandidate":    {1, "initial votes from the deposit"},
-			"(*" + tr + ".CandidateVoteEnv).unRegisterCandidate":  {1, "zero on unregistration"},
-			tr + ".addDepositChangeVotes":                         {1, "deposit top-up"},
-			"(*" + tr + ".CandidateVoteEnv).modifyCandidateVotes": {2, "vote move: old candidate −v, new candidate +v"},
-			tr + ".changeCandidateVotes":                          {1, "end-of-block balance adjustment"},
-			"(*chain.Genesis).initCandidateListInfo":              {1, "genesis"},
-			"(*chain/account.SafeAccount).SetVotes":               {1, "journalling wrapper → raw account"},
-			"chain/account.redoVotes":                             {1, "journal replay"},
-			"chain/account.undoVotes":                             {1, "journal undo"},
-		})
-		closedSites(c, "SetVoteFor", acc("SetVoteFor"), map[string]siteClass{
-			"(*" + tr + ".CandidateVoteEnv).CallVoteTx": {1, "vote tx"},
-			"(*chain/account.SafeAccount).SetVoteFor":   {1, "journalling wrapper → raw account"},
-			"chain/account.redoVoteFor":                 {1, "journal replay"},
-			"chain/account.undoVoteFor":                 {1, "journal undo"},
-		})
-		// GetVotes returns the stored pointer: nobody may compute into it
-		n, bad := 0, 0
-		for _, s := range c.CallSites(acc("GetVotes")) {
-			if isTestHelper(c, s.Caller) {
-				continue
-			}
-			n++
-			v := s.Instr.Value()
-			if v == nil {
-				continue
-			}
-			for d := range core.Derived(v) {
-				if d.Referrers() == nil {
-					continue
-				}
-				for _, r := range *d.Referrers() {
-					ci, ok := r.(ssa.CallInstruction)
-					if !ok || core.BigIntMethod(ci) == "" || ci.Common().Args[0] != d {
-						continue
-					}
-					if res := ci.Common().Signature().Results(); res.Len() > 0 {
-						if _, isPtr := res.At(0).Type().(*types.Pointer); isPtr {
-							bad++
-							c.Check("GetVotes-result-mutated@"+core.FuncName(core.Outer(s.Caller)), "alias-write", false, ci.Pos(), "the *big.Int returned by GetVotes is the stored counter; %s writes into it without SetVotes", core.BigIntMethod(ci))
-						}
-					}
-				}
-			}
-		}
-		c.Floor("GetVotes-sites", n, 5)
-		c.Check("GetVotes-result-never-mutated", "alias-write", bad == 0, token.NoPos, "%d of %d GetVotes results are used as the receiver of a big.Int mutator", bad, n)
-
-		cv := c.Fn(tr + ".CandidateVoteEnv.CallVoteTx")
-		mod := c.Method(tr+".CandidateVoteEnv", "modifyCandidateVotes")
-		ordered(c, cv, mod, acc("SetVoteFor"))
-		ms, sv := core.CallsIn(cv, mod), core.CallsIn(cv, acc("SetVoteFor"))
-		if len(ms) == 1 && len(sv) == 1 {
-			c.Check("CallVoteTx:no-modifyCandidateVotes-after-SetVoteFor", "order", !core.ReachableAfter(sv[0], ms[0]), ms[0].Pos(), "the vote move reads the old VoteFor, so it must not run after SetVoteFor")
-			a := ms[0].Common().Args // c, voter, newCandidate, votes
-			c.Check("CallVoteTx:same-voter", "value-flow", core.Derived(a[1])[recvValue(sv[0])] || a[1] == recvValue(sv[0]), sv[0].Pos(), "VoteFor is set on the voter account whose old vote was moved")
-			// the new VoteFor is the candidate that was credited
-			gcand := core.Slice(a[2])
-			c.Check("CallVoteTx:VoteFor=credited-candidate", "value-flow", gcand[callArgs(sv[0])[0]], sv[0].Pos(), "the address stored in VoteFor is the one the credited candidate account was looked up by")
-		}
-		// modifyCandidateVotes debits the candidate the voter currently votes for
-		mf := c.Fn(tr + ".CandidateVoteEnv.modifyCandidateVotes")
-		for _, s := range core.CallsIn(mf, acc("SetVotes")) {
-			op := asBigOp(callArgs(s)[0])
-			if op == nil || op.name != "Sub" {
-				continue
-			}
-			sl := core.Slice(recvValue(s))
-			okOld := false
-			for v := range sl {
-				if ci, ok := v.(ssa.CallInstruction); ok && core.SameFamily(core.CalleeObj(ci), acc("GetVoteFor")) && recvValue(ci) == mf.Params[1] {
-					okOld = true
-				}
-			}
-			c.Check("modifyCandidateVotes:debits voter.GetVoteFor()", "value-flow", okOld, s.Pos(), "the debited account is looked up by the voter's current VoteFor")
-		}
-	})
+	c.Run("writers", func() { c11Writers(c) })
 
 	c.Clause("C11.3", "only candidates are credited or debited: the SetVotes sites in changeCandidateVotes and the debit in modifyCandidateVotes lie on the true edge of GetCandidateState(isCandidate)==\"true\" of the same account; CallVoteTx rejects a target whose profile says it is not a candidate before any vote is moved; unRegisterCandidate sets the votes of the account it unregisters to zero")
-	c.Run("guards", func() {
-		n := 0
-		cc := c.Fn(tr + ".changeCandidateVotes")
-		for i, s := range core.CallsIn(cc, acc("SetVotes")) {
-			n++
-			c.Check("changeCandidateVotes:IsCandidate≺SetVotes#"+string(rune('a'+i)), "guarded-action", candidateGuard(c, s, recvValue(s)), s.Pos(), "the adjusted account is tested to be a candidate")
-		}
-		mf := c.Fn(tr + ".CandidateVoteEnv.modifyCandidateVotes")
-		for _, s := range core.CallsIn(mf, acc("SetVotes")) {
-			op := asBigOp(callArgs(s)[0])
-			if op == nil || op.name != "Sub" {
-				continue
-			}
-			n++
-			c.Check("modifyCandidateVotes:IsCandidate≺debit", "guarded-action", candidateGuard(c, s, recvValue(s)), s.Pos(), "the old candidate is only debited while it is still a candidate")
-		}
-		c.Exactly("candidate-guarded-sites", n, 2)
-
-		cv := c.Fn(tr + ".CandidateVoteEnv.CallVoteTx")
-		mod := c.Method(tr+".CandidateVoteEnv", "modifyCandidateVotes")
-		key, no := strConst(c.Const("chain/types.CandidateKeyIsCandidate")), strConst(c.Const("chain/types.NotCandidateNode"))
-		for _, m := range core.CallsIn(cv, mod) {
-			target := m.Common().Args[2]
-			okNo, okMissing := false, false
-			for _, g := range core.CondGuards(cv, nil) {
-				if !g.GuardsAction(m) {
-					continue
-				}
-				// the condition reads profile[isCandidate] of the target account
-				reads := false
-				for v := range g.Slice {
-					if lk, ok := v.(*ssa.Lookup); ok {
-						if k, isK := lk.Index.(*ssa.Const); isK && k.Value != nil && k.Value.Kind() == constant.String && constant.StringVal(k.Value) == key {
-							for w := range core.Slice(lk.X) {
-								if ci, isCall := w.(ssa.CallInstruction); isCall && core.SameFamily(core.CalleeObj(ci), acc("GetCandidate")) && core.Derived(target)[recvValue(ci)] {
-									reads = true
-								}
-							}
-						}
-					}
-				}
-				if !reads {
-					continue
-				}
-				if rejectsWhenEqual(g) && sliceHasStrConst(g.Slice, no) {
-					okNo = true
-				}
-				if ex, ok := g.If.Cond.(*ssa.Extract); ok && ex.Index == 1 && g.Fail == g.If.Block().Succs[1] {
-					okMissing = true
-				}
-			}
-			c.Check("CallVoteTx:target-not-candidate⇒reject", "guarded-action", okNo, m.Pos(), "a target whose profile says isCandidate==\"false\" is rejected before votes are moved")
-			c.Check("CallVoteTx:target-without-profile⇒reject", "guarded-action", okMissing, m.Pos(), "a target without an isCandidate entry is rejected before votes are moved")
-		}
-		// unRegisterCandidate
-		un := c.Fn(tr + ".CandidateVoteEnv.unRegisterCandidate")
-		scs := c.Method("chain/types.AccountAccessor", "SetCandidateState")
-		var off ssa.CallInstruction
-		for _, s := range core.CallsIn(un, scs) {
-			a := callArgs(s)
-			k0, ok0 := a[0].(*ssa.Const)
-			k1, ok1 := a[1].(*ssa.Const)
-			if ok0 && ok1 && k0.Value != nil && k1.Value != nil && constant.StringVal(k0.Value) == key && constant.StringVal(k1.Value) == no {
-				off = s
-			}
-		}
-		okZero := false
-		if off != nil {
-			for _, s := range core.CallsIn(un, acc("SetVotes")) {
-				if recvValue(s) == recvValue(off) && isZeroBig(c, callArgs(s)[0]) && (core.AlwaysFollowedBy(off, s) || (core.Dominates(s, off) && s.Block() == off.Block())) {
-					okZero = true
-				}
-			}
-		}
-		c.Check("unRegisterCandidate:votes←0", "paired-write", off != nil && okZero, un.Pos(), "whenever an account is marked not-a-candidate its votes are set to zero on the same path")
-	})
+	c.Run("guards", func() { c11Guards(c) })
 
 	c.Clause("C11.4", "subtractions on vote counts are guarded like subtractions on balances: every SetVotes whose argument is a big.Int Sub, or an Add of a delta not proven ≥ 0, is dominated by a heeded comparison of the operands or a sign test of the result (Account.SetVotes itself has no sign guard, unlike Account.SetBalance)")
 	c.Run("sign", func() {
@@ -483,4 +330,173 @@ func c11(c *core.Ctx) {
 	c.NotDecidedf("the tally equation itself is NOT decided: that a candidate's votes equal deposit/DepositExchangeRate + Σ balance(voter)/VoteExchangeRate over its voters (sums over runtime balances); D19 shows a reachable history where it fails")
 	c.NotDecidedf("clause 4 only says whether a negative count is prevented, not whether counts are right; clause 1 says the adjustment runs after every balance writer, not that its arithmetic (per-account floor division of old/new balance) matches the per-tx vote moves")
 	c.NotDecidedf("writes to the vote counter that bypass the accessor interface inside package account or types (decoders, Copy), and candidates' Top-list ranking (C10)")
+}
+
+// c11Writers is clause C11.2 (closed writers of vote state, GetVotes results never mutated); evaluated under C10.11 as well.
+func c11Writers(c *core.Ctx) {
+	const tr = "chain/transaction"
+	const cons = "chain/consensus"
+	acc := func(m string) *types.Func { return c.Method("chain/types.AccountAccessor", m) }
+	_, _ = tr, cons
+	_ = acc
+	closedSites(c, "SetVotes", acc("SetVotes"), map[string]siteClass{
+		"(*" + tr + ".CandidateVoteEnv).registerCandidate":    {1, "initial votes from the deposit"},
+		"(*" + tr + ".CandidateVoteEnv).unRegisterCandidate":  {1, "zero on unregistration"},
+		tr + ".addDepositChangeVotes":                         {1, "deposit top-up"},
+		"(*" + tr + ".CandidateVoteEnv).modifyCandidateVotes": {2, "vote move: old candidate −v, new candidate +v"},
+		tr + ".changeCandidateVotes":                          {1, "end-of-block balance adjustment"},
+		"(*chain.Genesis).initCandidateListInfo":              {1, "genesis"},
+		"(*chain/account.SafeAccount).SetVotes":               {1, "journalling wrapper → raw account"},
+		"chain/account.redoVotes":                             {1, "journal replay"},
+		"chain/account.undoVotes":                             {1, "journal undo"},
+	})
+	closedSites(c, "SetVoteFor", acc("SetVoteFor"), map[string]siteClass{
+		"(*" + tr + ".CandidateVoteEnv).CallVoteTx": {1, "vote tx"},
+		"(*chain/account.SafeAccount).SetVoteFor":   {1, "journalling wrapper → raw account"},
+		"chain/account.redoVoteFor":                 {1, "journal replay"},
+		"chain/account.undoVoteFor":                 {1, "journal undo"},
+	})
+	// GetVotes returns the stored pointer: nobody may compute into it
+	n, bad := 0, 0
+	for _, s := range c.CallSites(acc("GetVotes")) {
+		if isTestHelper(c, s.Caller) {
+			continue
+		}
+		n++
+		v := s.Instr.Value()
+		if v == nil {
+			continue
+		}
+		for d := range core.Derived(v) {
+			if d.Referrers() == nil {
+				continue
+			}
+			for _, r := range *d.Referrers() {
+				ci, ok := r.(ssa.CallInstruction)
+				if !ok || core.BigIntMethod(ci) == "" || ci.Common().Args[0] != d {
+					continue
+				}
+				if res := ci.Common().Signature().Results(); res.Len() > 0 {
+					if _, isPtr := res.At(0).Type().(*types.Pointer); isPtr {
+						bad++
+						c.Check("GetVotes-result-mutated@"+core.FuncName(core.Outer(s.Caller)), "alias-write", false, ci.Pos(), "the *big.Int returned by GetVotes is the stored counter; %s writes into it without SetVotes", core.BigIntMethod(ci))
+					}
+				}
+			}
+		}
+	}
+	c.Floor("GetVotes-sites", n, 5)
+	c.Check("GetVotes-result-never-mutated", "alias-write", bad == 0, token.NoPos, "%d of %d GetVotes results are used as the receiver of a big.Int mutator", bad, n)
+
+	cv := c.Fn(tr + ".CandidateVoteEnv.CallVoteTx")
+	mod := c.Method(tr+".CandidateVoteEnv", "modifyCandidateVotes")
+	ordered(c, cv, mod, acc("SetVoteFor"))
+	ms, sv := core.CallsIn(cv, mod), core.CallsIn(cv, acc("SetVoteFor"))
+	if len(ms) == 1 && len(sv) == 1 {
+		c.Check("CallVoteTx:no-modifyCandidateVotes-after-SetVoteFor", "order", !core.ReachableAfter(sv[0], ms[0]), ms[0].Pos(), "the vote move reads the old VoteFor, so it must not run after SetVoteFor")
+		a := ms[0].Common().Args // c, voter, newCandidate, votes
+		c.Check("CallVoteTx:same-voter", "value-flow", core.Derived(a[1])[recvValue(sv[0])] || a[1] == recvValue(sv[0]), sv[0].Pos(), "VoteFor is set on the voter account whose old vote was moved")
+		// the new VoteFor is the candidate that was credited
+		gcand := core.Slice(a[2])
+		c.Check("CallVoteTx:VoteFor=credited-candidate", "value-flow", gcand[callArgs(sv[0])[0]], sv[0].Pos(), "the address stored in VoteFor is the one the credited candidate account was looked up by")
+	}
+	// modifyCandidateVotes debits the candidate the voter currently votes for
+	mf := c.Fn(tr + ".CandidateVoteEnv.modifyCandidateVotes")
+	for _, s := range core.CallsIn(mf, acc("SetVotes")) {
+		op := asBigOp(callArgs(s)[0])
+		if op == nil || op.name != "Sub" {
+			continue
+		}
+		sl := core.Slice(recvValue(s))
+		okOld := false
+		for v := range sl {
+			if ci, ok := v.(ssa.CallInstruction); ok && core.SameFamily(core.CalleeObj(ci), acc("GetVoteFor")) && recvValue(ci) == mf.Params[1] {
+				okOld = true
+			}
+		}
+		c.Check("modifyCandidateVotes:debits voter.GetVoteFor()", "value-flow", okOld, s.Pos(), "the debited account is looked up by the voter's current VoteFor")
+	}
+}
+
+// c11Guards is clause C11.3 (only candidates are credited or debited); evaluated under C10.11 as well.
+func c11Guards(c *core.Ctx) {
+	const tr = "chain/transaction"
+	const cons = "chain/consensus"
+	acc := func(m string) *types.Func { return c.Method("chain/types.AccountAccessor", m) }
+	_, _ = tr, cons
+	_ = acc
+	n := 0
+	cc := c.Fn(tr + ".changeCandidateVotes")
+	for i, s := range core.CallsIn(cc, acc("SetVotes")) {
+		n++
+		c.Check("changeCandidateVotes:IsCandidate≺SetVotes#"+string(rune('a'+i)), "guarded-action", candidateGuard(c, s, recvValue(s)), s.Pos(), "the adjusted account is tested to be a candidate")
+	}
+	mf := c.Fn(tr + ".CandidateVoteEnv.modifyCandidateVotes")
+	for _, s := range core.CallsIn(mf, acc("SetVotes")) {
+		op := asBigOp(callArgs(s)[0])
+		if op == nil || op.name != "Sub" {
+			continue
+		}
+		n++
+		c.Check("modifyCandidateVotes:IsCandidate≺debit", "guarded-action", candidateGuard(c, s, recvValue(s)), s.Pos(), "the old candidate is only debited while it is still a candidate")
+	}
+	c.Exactly("candidate-guarded-sites", n, 2)
+
+	cv := c.Fn(tr + ".CandidateVoteEnv.CallVoteTx")
+	mod := c.Method(tr+".CandidateVoteEnv", "modifyCandidateVotes")
+	key, no := strConst(c.Const("chain/types.CandidateKeyIsCandidate")), strConst(c.Const("chain/types.NotCandidateNode"))
+	for _, m := range core.CallsIn(cv, mod) {
+		target := m.Common().Args[2]
+		okNo, okMissing := false, false
+		for _, g := range core.CondGuards(cv, nil) {
+			if !g.GuardsAction(m) {
+				continue
+			}
+			// the condition reads profile[isCandidate] of the target account
+			reads := false
+			for v := range g.Slice {
+				if lk, ok := v.(*ssa.Lookup); ok {
+					if k, isK := lk.Index.(*ssa.Const); isK && k.Value != nil && k.Value.Kind() == constant.String && constant.StringVal(k.Value) == key {
+						for w := range core.Slice(lk.X) {
+							if ci, isCall := w.(ssa.CallInstruction); isCall && core.SameFamily(core.CalleeObj(ci), acc("GetCandidate")) && core.Derived(target)[recvValue(ci)] {
+								reads = true
+							}
+						}
+					}
+				}
+			}
+			if !reads {
+				continue
+			}
+			if rejectsWhenEqual(g) && sliceHasStrConst(g.Slice, no) {
+				okNo = true
+			}
+			if ex, ok := g.If.Cond.(*ssa.Extract); ok && ex.Index == 1 && g.Fail == g.If.Block().Succs[1] {
+				okMissing = true
+			}
+		}
+		c.Check("CallVoteTx:target-not-candidate⇒reject", "guarded-action", okNo, m.Pos(), "a target whose profile says isCandidate==\"false\" is rejected before votes are moved")
+		c.Check("CallVoteTx:target-without-profile⇒reject", "guarded-action", okMissing, m.Pos(), "a target without an isCandidate entry is rejected before votes are moved")
+	}
+	// unRegisterCandidate
+	un := c.Fn(tr + ".CandidateVoteEnv.unRegisterCandidate")
+	scs := c.Method("chain/types.AccountAccessor", "SetCandidateState")
+	var off ssa.CallInstruction
+	for _, s := range core.CallsIn(un, scs) {
+		a := callArgs(s)
+		k0, ok0 := a[0].(*ssa.Const)
+		k1, ok1 := a[1].(*ssa.Const)
+		if ok0 && ok1 && k0.Value != nil && k1.Value != nil && constant.StringVal(k0.Value) == key && constant.StringVal(k1.Value) == no {
+			off = s
+		}
+	}
+	okZero := false
+	if off != nil {
+		for _, s := range core.CallsIn(un, acc("SetVotes")) {
+			if recvValue(s) == recvValue(off) && isZeroBig(c, callArgs(s)[0]) && (core.AlwaysFollowedBy(off, s) || (core.Dominates(s, off) && s.Block() == off.Block())) {
+				okZero = true
+			}
+		}
+	}
+	c.Check("unRegisterCandidate:votes←0", "paired-write", off != nil && okZero, un.Pos(), "whenever an account is marked not-a-candidate its votes are set to zero on the same path")
 }
